@@ -181,6 +181,8 @@ def check_bytes(case):
     want = pt is not None and vals is not None and ec.ecdsa_verify(pt, z2, vals[0], vals[1])
     cls = ["mut:" + label, "nt:expect-accept" if (want and kind != "none") else ("expect-accept" if want else "nt:expect-reject")]
     cls.append("preimage" if preimage else "plain")
+    if flag not in FLAGS:
+        cls.append("nt:nonstandard-sighash-byte-00" if flag == 0 else "nt:nonstandard-sighash-byte")
     got = attempt(bits.sig_verify, sig, pkb, msg, msg_preimage=preimage)
     acc = got == "OK"
     if want:
@@ -302,7 +304,8 @@ def bytes_cases(draw):
     return {
         "d": draw(gen.scalars_valid()),
         "k": draw(st.integers(1, N - 1)),
-        "flag": draw(st.sampled_from(FLAGS)),
+        # the tuple ranges over every sighash byte, not only the six standard ones (0x00 is falsy in Python)
+        "flag": draw(st.sampled_from(FLAGS + [0x00, 0x00, 0x04, 0x80, 0xFF]) | st.integers(0, 255)),
         "preimage": draw(st.booleans()),
         "msg": draw(st.binary(max_size=80)).hex(),
         "comp": draw(st.booleans()),
@@ -345,7 +348,7 @@ def targets(tier):
         Target("verify-secp", check_verify, strategy=lambda tier: verify_cases(), budget={"quick": 640, "thorough": 10000},
                required=["mut:s->n-s", "mut:z+n", "mut:u1G+u2P=infinity", "mut:other-key", "nt:expect-accept", "nt:expect-reject", "mut:flip-px"]),
         Target("sigverify-bytes", check_bytes, strategy=lambda tier: bytes_cases(), budget={"quick": 640, "thorough": 10000},
-               required=["mut:der-struct", "mut:der-value", "mut:pk-hybrid", "mut:pk-len-otherform", "mut:flag", "mut:msg", "mut:u1G+u2P=infinity", "nt:expect-accept", "nt:expect-reject"]),
+               required=["mut:der-struct", "mut:der-value", "mut:pk-hybrid", "mut:pk-len-otherform", "mut:flag", "mut:msg", "mut:u1G+u2P=infinity", "nt:expect-accept", "nt:expect-reject", "nt:nonstandard-sighash-byte-00"]),
         Target("low-s", check_lows, strategy=lambda tier: lows_cases(), budget={"quick": 3000, "thorough": 40000},
                required=["nt:complement-short", "nt:complement-short-topbit", "nt:s-at-half", "nt:verified"]),
         Target("small-curve", check_small, enumerate_=enum_small, exhaustive=True),
